@@ -199,7 +199,7 @@ def gen_library(cases, with_class, extra_options=None, language="c++", ns="ns1")
                 if "lib_out" in r:
                     body.append("    " + fmt(r["lib_out"], n=p["name"], **px(p)))
             body.append("    vt_end();")
-            if rr["ty"] != "none":
+            if rr["ty"] != "none" or rr.get("returns"):
                 body.append("    return rv;")
             cpp.append(head + "\n{\n" + "\n".join(body) + "\n}")
     if with_class:
